@@ -403,10 +403,12 @@ class PropertyCheck:
             if not self.undecided:
                 self.native_smoke()
             self.phase["native_smoke_s"] = round(time.time() - t, 2)
-            if "extra" in self.cfg:
+            t = time.time()
+            if "extra" in self.cfg and not self.undecided:
                 self.extra_cov = self.cfg["extra"](self)
             else:
                 self.extra_cov = None
+            self.phase["native_sweep_s"] = round(time.time() - t, 2)
         except Unsupported as e:
             print(f"CHECKER-ERROR property={self.prop} out-of-fragment: {e}")
             traceback.print_exc()
